@@ -301,9 +301,12 @@ static void job (void *arg)
 }
 
 /* ------------------------------------------------------------------ watchdog */
-static volatile int wd_phase;
-static volatile long wd_deadline;       /* seconds (monotonic), 0 = idle */
+static int wd_phase;
+static long wd_deadline;                /* seconds (monotonic), 0 = idle; accessed atomically */
+#define WD_GET() __atomic_load_n (&wd_deadline, __ATOMIC_SEQ_CST)
+#define WD_SET(v) __atomic_store_n (&wd_deadline, (v), __ATOMIC_SEQ_CST)
 static char res_prefix[256];
+static pthread_mutex_t out_lock = PTHREAD_MUTEX_INITIALIZER;   /* the watchdog and main never print together */
 
 static long now_s (void) { struct timespec ts; clock_gettime (CLOCK_MONOTONIC, &ts); return ts.tv_sec; }
 
@@ -340,11 +343,13 @@ static void *watchdog (void *arg)
     (void) arg;
     for (;;) {
         usleep (100000);
-        if (wd_deadline && now_s () > wd_deadline) {
+        if (WD_GET () && now_s () > WD_GET ()) {
+            __real_pthread_mutex_lock (&out_lock);
+            if (!WD_GET ()) { __real_pthread_mutex_unlock (&out_lock); continue; }
             printf ("%s", res_prefix);
             print_proc ();
             printf (" waitret=? cancelpend=%d finiret=? qfail=? hang=1 phase=%d pending=%d idle=%d",
-                    first_cancel_pending, wd_phase, pending_items (), n_idle);
+                    first_cancel_pending, __atomic_load_n (&wd_phase, __ATOMIC_SEQ_CST), pending_items (), n_idle);
             print_trace ();
             printf ("\n");
             fflush (stdout);
@@ -388,17 +393,17 @@ int main (int argc, char **argv)
         first_cancel_pending = -1; cur_op = OP_NONE; rng_state = 0;
         memset (items, 0, sizeof (items));
         snprintf (res_prefix, sizeof (res_prefix), "R n=%d", n);
-        wd_phase = 0; wd_deadline = now_s () + hang_secs;
+        __atomic_store_n (&wd_phase, 0, __ATOMIC_SEQ_CST); WD_SET (now_s () + hang_secs);
 
         in_work_init = 1;
         w = work_init (job, n);
         in_work_init = 0;
-        if (!w) { printf ("R n=%d initfail=1 errno=%d\n", n, errno); fflush (stdout); wd_deadline = 0; continue; }
+        if (!w) { printf ("R n=%d initfail=1 errno=%d\n", n, errno); fflush (stdout); WD_SET (0); continue; }
 
         while (!have_fini) {
             tok = strtok_r (NULL, " \n", &save);
             if (!tok) tok = "f1";
-            wd_phase++;
+            __atomic_fetch_add (&wd_phase, 1, __ATOMIC_SEQ_CST);
             if (tok[0] == 'q') {
                 int cnt = atoi (tok + 1), dur = 0;
                 char *c = strchr (tok, ',');
@@ -426,13 +431,13 @@ int main (int argc, char **argv)
                     int all = 1;
                     for (i = 0; i < n_items; i++)
                         if (items[i].accepted && !__atomic_load_n (&items[i].started, __ATOMIC_SEQ_CST)) all = 0;
-                    if (all || now_s () > t0 + 3) break;
+                    if (all || now_s () > t0 + 1) break;
                     usleep (200);
                 }
             }
             else if (tok[0] == 'I') {
                 long t0 = now_s ();
-                while (__atomic_load_n (&n_idle, __ATOMIC_SEQ_CST) < n && now_s () <= t0 + 3) usleep (200);
+                while (__atomic_load_n (&n_idle, __ATOMIC_SEQ_CST) < n && now_s () <= t0 + 1) usleep (200);
             }
             else if (tok[0] == 'f') {
                 cur_dw = atoi (tok + 1);
@@ -443,7 +448,8 @@ int main (int argc, char **argv)
                 have_fini = 1;
             }
         }
-        wd_deadline = 0;
+        __real_pthread_mutex_lock (&out_lock);
+        WD_SET (0);
         printf ("%s items=%d", res_prefix, n_items);
         print_proc ();
         printf (" waitret=");
@@ -453,6 +459,7 @@ int main (int argc, char **argv)
         print_trace ();
         printf ("\n");
         fflush (stdout);
+        __real_pthread_mutex_unlock (&out_lock);
     }
     return 0;
 }
